@@ -3,7 +3,7 @@ CONSTANTS
   Versions <- VersionsAll
   Family = "ops"
   ShapeIds <- ShapesC03
-  VariantIds <- Variants2
+  VariantIds <- Variants256
   MaxOps = 2
   Alphabet <- AlphabetQuick
   PreOps <- PreNone
